@@ -150,13 +150,23 @@ type vfC12QStats struct {
 }
 
 // vfC12QRun interprets the script inside a bubble against the real queue and the slice model.
-func vfC12QRun(initCap int, steps []vfC12QStep, stt *vfC12QStats) string {
+func vfC12QRun(initCap int, steps []vfC12QStep, stt *vfC12QStats) (verdict string) {
 	q := New(initCap)
 	var model []Item
 	closed := false
 	nextID := 0
 	var waitDone chan bool // non-nil while a Wait() issued on an empty queue has not been seen returning
 	defer func() {
+		if r := recover(); r != nil {
+			// The queue's methods unlock without defer: a panic inside one leaves q.mu locked. Release it (this is
+			// the only goroutine that can hold it here) so that the bubble can be torn down, and report the panic.
+			verdict = fmt.Sprintf("PANIC inside the queue: %v", r)
+			if !q.mu.TryLock() {
+				q.mu.Unlock()
+			} else {
+				q.mu.Unlock()
+			}
+		}
 		q.Close()
 		vfSettle()
 	}()
@@ -512,10 +522,17 @@ func TestVF_C12_QueueConcurrent(t *testing.T) {
 		q := New(initCap)
 		var wg sync.WaitGroup
 		var prodDone, consDone atomic.Bool
+		panicCh := make(chan string, np+2)
+		guard := func() {
+			if r := recover(); r != nil {
+				panicCh <- fmt.Sprintf("PANIC inside the queue: %v", r)
+			}
+		}
 		for p := range prods {
 			wg.Add(1)
 			go func(p int) {
 				defer wg.Done()
+				defer guard()
 				seq := 0
 				for _, call := range prods[p] {
 					items := make([]Item, len(call))
@@ -533,9 +550,8 @@ func TestVF_C12_QueueConcurrent(t *testing.T) {
 		}
 		// Once all producers returned, keep signalling (AddMany with no items) so that a consumer parked in Wait()
 		// on a queue that lost items wakes up and reports instead of hanging.
-		helperDone := make(chan struct{})
 		go func() {
-			defer close(helperDone)
+			defer guard()
 			wg.Wait()
 			prodDone.Store(true)
 			for !consDone.Load() {
@@ -543,61 +559,78 @@ func TestVF_C12_QueueConcurrent(t *testing.T) {
 				runtime.Gosched()
 			}
 		}()
-		next := make([]int, np)
-		got := 0
-		verdict := ""
-		consume := func(items []Item) {
-			for _, it := range items {
-				p, _ := strconv.Atoi(it.Channel)
-				s, _ := strconv.Atoi(it.Key)
-				if verdict == "" && (p < 0 || p >= np || s != next[p]) {
-					verdict = fmt.Sprintf("consumer got producer %q item %q, expected that producer's item #%d next (loss, duplication or reordering)", it.Channel, it.Key, next[p%np])
-				}
-				if p >= 0 && p < np {
+		consRes := make(chan string, 1)
+		go func() {
+			defer guard()
+			next := make([]int, np)
+			got := 0
+			verdict := ""
+			consume := func(items []Item) {
+				for _, it := range items {
+					p, _ := strconv.Atoi(it.Channel)
+					s, _ := strconv.Atoi(it.Key)
+					if p < 0 || p >= np {
+						if verdict == "" {
+							verdict = fmt.Sprintf("consumer got an item that was never added (channel %q key %q)", it.Channel, it.Key)
+						}
+						continue
+					}
+					if verdict == "" && s != next[p] {
+						verdict = fmt.Sprintf("consumer got producer %d item #%d, expected that producer's item #%d next (loss, duplication or reordering)", p, s, next[p])
+					}
 					next[p] = s + 1
+					got++
 				}
-				got++
 			}
-		}
-		minCap := initCap
-		for i := 0; got < total && verdict == ""; i++ {
-			if prodDone.Load() && q.Len() == 0 {
-				verdict = fmt.Sprintf("all producers finished and the queue is empty, but only %d of %d items came out", got, total)
-				break
-			}
-			if !q.Wait() {
-				verdict = "Wait() returned false on an open queue"
-				break
-			}
-			op := cons[i%len(cons)]
-			switch op.Kind {
-			case 0:
-				if it, ok := q.Remove(); ok {
-					consume([]Item{it})
+			for i := 0; got < total && verdict == ""; i++ {
+				if prodDone.Load() && q.Len() == 0 {
+					verdict = fmt.Sprintf("all producers finished and the queue is empty, but only %d of %d items came out", got, total)
+					break
 				}
-			case 1:
-				items, _ := q.RemoveMany(op.Max)
-				consume(items)
-			case 2:
-				buf := make([]Item, op.Buf)
-				n, _ := q.RemoveManyInto(buf, op.Max)
-				consume(buf[:n])
-				q.FinishCollect(0)
-			default:
-				buf := make([]Item, op.Buf)
-				n, _ := q.RemoveManyIntoShrink(buf, op.Max)
-				consume(buf[:n])
+				if !q.Wait() {
+					verdict = "Wait() returned false on an open queue"
+					break
+				}
+				op := cons[i%len(cons)]
+				switch op.Kind {
+				case 0:
+					if it, ok := q.Remove(); ok {
+						consume([]Item{it})
+					}
+				case 1:
+					items, _ := q.RemoveMany(op.Max)
+					consume(items)
+				case 2:
+					buf := make([]Item, op.Buf)
+					n, _ := q.RemoveManyInto(buf, op.Max)
+					consume(buf[:n])
+					q.FinishCollect(0)
+				default:
+					buf := make([]Item, op.Buf)
+					n, _ := q.RemoveManyIntoShrink(buf, op.Max)
+					consume(buf[:n])
+				}
+				if cp := q.Cap(); cp < initCap {
+					verdict = fmt.Sprintf("Cap()=%d below initial capacity %d", cp, initCap)
+				}
 			}
-			if cp := q.Cap(); cp < minCap {
-				verdict = fmt.Sprintf("Cap()=%d below initial capacity %d", cp, initCap)
+			consDone.Store(true)
+			if verdict == "" {
+				wg.Wait()
+				if q.Len() != 0 || q.Size() != 0 {
+					verdict = fmt.Sprintf("all %d items consumed but Len()=%d Size()=%d", total, q.Len(), q.Size())
+				}
 			}
-		}
-		consDone.Store(true)
-		<-helperDone
-		if verdict == "" {
-			if q.Len() != 0 || q.Size() != 0 {
-				verdict = fmt.Sprintf("all %d items consumed but Len()=%d Size()=%d", total, q.Len(), q.Size())
-			}
+			consRes <- verdict
+		}()
+		var verdict string
+		select {
+		case verdict = <-consRes:
+		case verdict = <-panicCh:
+			// a panic inside the queue leaves its mutex locked; the other goroutines of this case stay parked on it
+			// (leaked on purpose: only happens on a failing case).
+			consDone.Store(true)
+			return verdict
 		}
 		q.Close()
 		return verdict
